@@ -232,7 +232,7 @@ fn classify(c: &mut Ctx, k: &Case) {
 }
 
 fn run(c: &mut Ctx) {
-    let cases = c.tier.pick(12_000, 300_000);
+    let cases = c.tier.pick(36_000, 600_000);
     let r = c.proptest(cases, case_strategy(70), |c, k, counting| {
         check_filter(k)?;
         check_counters_inproc(k)?;
